@@ -621,7 +621,7 @@ fn twin_check<M: Machine>(fw: &FWorld<M>, slot: u16, s: &Slot<M>, twin: &<M::Twi
             _ => m * m,
         };
         let want = jac * et;
-        if want.is_finite() && et.is_finite() && !at_edge(want) && !at_edge(m) {
+        if want.is_finite() && et.is_finite() && !at_edge(want) {
             let tol = want.abs() * (2.0 * rel(base, mt) + 16.0 * u) + f64::MIN_POSITIVE;
             let d = (e - want).abs();
             stats.worst("c05_sem_vs_twin", if d == 0.0 { 0.0 } else { d / tol });
@@ -668,7 +668,9 @@ fn twin_check<M: Machine>(fw: &FWorld<M>, slot: u16, s: &Slot<M>, twin: &<M::Twi
                     if got.to_bits() == want.to_bits() || (got.is_infinite() && want.is_infinite() && got == want) {
                         continue;
                     }
-                    if at_edge(want) || at_edge(got) {
+                    // only the EXPECTED value decides whether we are at the edge of the range: an
+                    // infinite or zero bound where the twin predicts a mid-range one is a mismatch
+                    if at_edge(want) {
                         stats.inc("c05_range_edge_skipped");
                         continue;
                     }
@@ -760,7 +762,19 @@ pub fn generate<M: Machine>(property: &str, verif_seed: u64, run: u64, mode: Mod
     let len1 = if M::STREAMS == 2 { if M::LOCKSTEP { len0 } else { r.usize_in(0, max_len) } } else { 0 };
     let fams: [u8; 5] = [0, 2, 3, 5, 7];
     let family = if flt == Flt::Int { r.below(10) as u8 } else { *r.pick(&fams) };
-    let scale_exp = if flt == Flt::Int { 0 } else { r.range(-8, 8) as i32 };
+    // "wide dynamic range": a third of the runs live far away from 1 (the squares of the records
+    // and of their reciprocals still fit the element type)
+    let wide = match flt {
+        Flt::F32 => 40,
+        _ => 300,
+    };
+    let scale_exp = if flt == Flt::Int {
+        0
+    } else if r.chance(0.33) {
+        r.range(-wide, wide) as i32
+    } else {
+        r.range(-8, 8) as i32
+    };
     let tapes = [
         TapeSpec::Gen { family, seed: r.next_u64(), len: len0 as u32, flt, positive, scale_exp },
         TapeSpec::Gen { family: *r.pick(&fams), seed: r.next_u64(), len: len1 as u32, flt, positive, scale_exp },
@@ -910,8 +924,11 @@ pub fn enumerate_nonpositive<M: Machine>(bg_seed: u64, max_len: usize) -> Vec<Tr
                     for pre in [0usize, 2] {
                         k += 1;
                         let total = pre + len + 2;
+                        // backgrounds cycle through small, ordinary and large magnitudes
+                        let wide = if flt == Flt::F32 { 40 } else { 300 };
+                        let scale_exp = [0, wide, -wide, 7, -7][(k % 5) as usize];
                         let tapes = [
-                            TapeSpec::Gen { family: 0, seed: mix(bg_seed, "c05bg", k), len: total as u32, flt, positive: true, scale_exp: 0 },
+                            TapeSpec::Gen { family: 0, seed: mix(bg_seed, "c05bg", k), len: total as u32, flt, positive: true, scale_exp },
                             TapeSpec::Explicit(vec![]),
                         ];
                         let mut events = Vec::new();
